@@ -66,6 +66,13 @@ func vVariant(k int, name string) Object {
 		return &Feature{base: NewPoint(p[0]), extra: &extra{members: `{"id":1}`}}
 	case 25: // Point carrying foreign members
 		return &Point{base: p[0], extra: &extra{members: `{"id":1}`}}
+	case 26, 27: // concrete concave (L-shaped) polygon with a segment index: 26 quadtree, 27 R-tree and a square hole
+		L := []geometry.Point{{X: 0, Y: 0}, {X: 2, Y: 0}, {X: 2, Y: 1}, {X: 1, Y: 1}, {X: 1, Y: 2}, {X: 0, Y: 2}, {X: 0, Y: 0}}
+		if k == 26 {
+			return NewPolygon(geometry.NewPoly(L, nil, idxOpts))
+		}
+		h := []geometry.Point{{X: 0.25, Y: 0.25}, {X: 0.75, Y: 0.25}, {X: 0.75, Y: 0.75}, {X: 0.25, Y: 0.75}, {X: 0.25, Y: 0.25}}
+		return NewPolygon(geometry.NewPoly(L, [][]geometry.Point{h}, rtOpts))
 	}
 	panic("bad variant")
 }
